@@ -191,3 +191,65 @@ Proof.
   unfold int_case. vm_compute. repeat split; discriminate.
 Qed.
 Print Assumptions C15_example_holds_hypotheses.
+
+(* ---- the range kernels as they are in the source (regenerated table) -------------------------------------------
+   Gen/RangeArms.v is rewritten from machines/range/src/{exclusive,inclusive,exclusive_increment,inclusive_increment}.rs
+   and lib.rs by translators/range_arms.py on every run of this check; the statements below are about THAT table, so a
+   slip in one of the near-identical operand-form arms, count expressions, struct initialisers or fill loops of ONE
+   form breaks them whether or not a generated case reaches it.  Definitions: Proofs/RangeArmsP.v, Proofs/SrcArmsP.v. *)
+From MechV Require Import Model.SrcArms Proofs.SrcArmsP Gen.RangeArms Proofs.RangeArmsP.
+
+(* the translator recognised every construct it was pointed at *)
+Theorem C15_range_source_fully_read : rg_unrecognised = [].
+Proof. exact rg_nothing_unrecognised. Qed.
+Print Assumptions C15_range_source_fully_read.
+
+(* every compile() binds arg1.. = arguments[0].., calls the kernel-level function of its own form with the operands in order,
+   directly and in each of its 2^n - 1 operand-form arms, unwrapping every reference *)
+Theorem C15_range_compile_arms_regular : forallb rg_compile_ok rg_compile = true /\ rg_compile_complete = true.
+Proof. exact rg_compile_regular. Qed.
+Print Assumptions C15_range_compile_arms_regular.
+
+(* meaning: whatever mixture of plain values and references (from, step, to) are, the kernel-level function of the form
+   receives their contents in this order *)
+Theorem C15_range_compile_applies_kernel_in_order :
+  forall (A R : Type) (c : cfn) (form : String.string) (k : String.string -> list (rval A) -> option R) (args : list (rval A)),
+    In c rg_compile -> cf_tag c = [form] ->
+    (forall f vs, existsb is_ref vs = true -> k f vs = None) ->
+    List.length args = nargs_of form ->
+    exists r f, resolve_cfn c = Some r /\ rcallee_of form = Some f /\ compile_model r k args = k f (map strip args).
+Proof. exact rg_compile_applies_kernel_in_order. Qed.
+Print Assumptions C15_range_compile_applies_kernel_in_order.
+
+(* kernel-level functions, arm macros (matched tuple, component names, the statements computing the element count = the
+   reference ones of the form, the arms of `match size` with from <- from, step <- step, to <- to), kernel structs (field
+   order, new(), the fill loop, operand order of the emitted instruction), range_size_to_usize! *)
+Theorem C15_range_tables_regular :
+  (forallb rcallee_ok rg_callees = true /\ map (fun e : rcallee_entry => let '(f, _, _, _, _, _, _) := e in f) rg_callees = rg_forms) /\
+  (forallb macro_ok rg_macros = true /\ map (fun e : macro_entry => let '(f, _, _, _, _, _, _, _) := e in f) rg_macros = rg_forms) /\
+  (forallb size_arm_ok rg_size_arms = true /\ size_arms_complete = true) /\
+  (forallb RangeArmsP.kernel_ok rg_kernels = true /\ map (fun e : RangeArmsP.kernel_entry => let '(f, _, _, _, _, _) := e in f) rg_kernels = rg_forms) /\
+  (forallb size_macro_ok rg_size_macro = true /\
+   map (fun e : String.string * String.string * tm => snd (fst e)) rg_size_macro
+   = ["$diff:expr,f32"; "$diff:expr,f64"; "$diff:expr,$ty:ty"]%string).
+Proof. exact rg_tables_regular. Qed.
+Print Assumptions C15_range_tables_regular.
+
+(* composition of the tables: arguments[0] lands in field `from`, the last argument in `to`, arguments[1] of the increment
+   forms in `step` *)
+Theorem C15_range_operands_reach_their_fields : chain_ok = true.
+Proof. exact rg_chain_positions. Qed.
+Print Assumptions C15_range_operands_reach_their_fields.
+
+(* the element-count expression of the increment forms, EVALUATED as a term with f64 arithmetic = rounding to 53 bits, is
+   the count function [fp_size] of the implementation model (for integer kinds: [int_fp_size], see the corollary in
+   Proofs/RangeArmsP.v), which theorems 5/6 above relate to the specification *)
+Theorem C15_increment_count_is_fp_size :
+  forall e : macro_entry, In e rg_macros ->
+    let '(form, _, _, _, _, _, prelude, _) := e in
+    is_step form = true ->
+    exists t, size_block prelude = Some t /\
+              forall (to64 : Q -> Q) (a s b : Q),
+                eval_size to64 t a s b = fp_size (is_incl form) (rnd 53 (to64 b - to64 a)) (to64 s).
+Proof. exact increment_count_is_fp_size. Qed.
+Print Assumptions C15_increment_count_is_fp_size.
